@@ -53,6 +53,17 @@ CHECKS = {
              "Gradients of view members are C06. No axioms.",
         technique="Coq proof (exact VJP of the update operation + adjoint theorem) + exact-integer correspondence on functionalised in-place programs",
     ),
+    "C06": dict(
+        text="Machine-checked (Coq) on the buffer model: 'the corresponding view of the base's gradient' is the gradient read through the view's index map; it tracks every later write to the base's gradient "
+             "in any arrival order, disjoint members are independent, and a view op's VJP is the scatter-add along the same map (so the base accumulates exactly the contributions of its views). Implementation oracle on /repo: "
+             "bases (C- and Fortran-ordered, leaves and intermediates), chains of views incl. views of views, consumers of base and views in random textual order (some through transposes), seeds that are strided non-owning "
+             "views of caller arrays: v.grad is available whenever b.grad is, equals b.grad through v's map, shares memory with it; gradients of tensors that do not share memory never do; no gradient aliases data. "
+             "Exact gradient values are also compared with Model/GraphP.v.",
+        design_ref="DESIGN.md 5 (C06)",
+        note="Partial: NumPy's layout rule (when replaying a view on the gradient is itself a view) is not modelled in Coq; sharing and availability are decided by the implementation oracle over the schedule quantifier. "
+             "Two defects found and repaired (first-contribution layout, non-owning seed). No axioms.",
+        technique="Coq proofs on index-map semantics + implementation oracle over consumer orders + exact-value correspondence",
+    ),
     "C07": dict(
         text="Machine-checked proofs (Coq) over the history-level model Model/GraphP.v, for EVERY history of operations / backward / clear_graph / null_grad: after L.backward() L and every tensor "
              "upstream of it (through creators not cleared before) has no creator and no recorded consumers; every tensor whose gradient changed is among them; gradients outside the traversal are "
@@ -200,7 +211,7 @@ def main():
 
 
 # fix: commits in /repo (filled in as they are made)
-SOURCE_COMMITS = ["1caf915", "cac9d7b", "4b729bd", "9cd2617", "683fb85", "e7ddae4", "48f0694", "9e68f28", "6f83c95", "8bae1ec"]
+SOURCE_COMMITS = ["1caf915", "cac9d7b", "4b729bd", "9cd2617", "683fb85", "e7ddae4", "48f0694", "9e68f28", "6f83c95", "8bae1ec", "c21f59a", "aefebdb"]
 
 if __name__ == "__main__":
     main()
